@@ -33,11 +33,11 @@ struct PathDomain {
   std::vector<std::string> abss;   // absolute URIs for (source, base) pairs: schemes s/t, authorities none/h/g
 };
 
-// vocabulary {a, "", ., .., b:c}; tier 0: base paths <= 2 segments, reference paths <= 3;
-// tier 1: base paths <= 3 segments, reference paths <= 4
+// vocabulary {a, "", ., .., b:c}; tier 0: base/source paths <= 2 segments, reference paths <= 4;
+// tier 1: base/source paths <= 3 segments, reference paths <= 5
 inline PathDomain path_domain(int tier) {
   std::vector<std::string> V = {"a", "", ".", "..", "b:c"};
-  int LB = tier ? 3 : 2, LR = tier ? 4 : 3, LS = tier ? 3 : 2;
+  int LB = tier ? 3 : 2, LR = tier ? 5 : 4, LS = tier ? 3 : 2;
   PathDomain d;
   std::set<std::string> seen;
   auto add = [&](std::vector<std::string> &dst, const std::string &s) {
